@@ -251,7 +251,20 @@ pub struct RunResult {
     pub panic: Option<String>,
 }
 
+/// Record the case about to run next to the trace file, so that a crash of this process can be
+/// attributed to it by the orchestrator.
+pub fn note_current(case: &Value) {
+    if let Ok(p) = std::env::var("VH_OUT") {
+        if !p.is_empty() {
+            let _ = std::fs::write(format!("{}.current", p), serde_json::to_string(case).unwrap_or_default());
+        }
+    }
+}
+
 pub fn run_tok(case: &Value) -> RunResult {
+    if std::env::var("VH_NOTE").is_ok() {
+        note_current(case);
+    }
     let state = case["state"].as_str().unwrap_or("Data");
     let last = case["last"].as_array().and_then(|a| a.first()).map(from_cps);
     let rs_val = if case["rs"] == "std" { crate::tokgen::std_replies() } else { case.get("replies").cloned().unwrap_or(json!([])) };
@@ -272,7 +285,7 @@ pub fn run_tok(case: &Value) -> RunResult {
     let opts = TokenizerOpts {
         exact_errors: case["exact"].as_bool().unwrap_or(false),
         discard_bom: case["bom"].as_bool().unwrap_or(false),
-        profile: false,
+        profile: case["profile"].as_bool().unwrap_or(false),
         initial_state: Some(parse_state(state).expect("bad state name")),
         last_start_tag_name: last,
     };
@@ -323,7 +336,7 @@ pub fn run_tok(case: &Value) -> RunResult {
 pub fn case_line(case: &Value, id: u64, rr: &RunResult, fields: &str) -> Value {
     let mut o = json!({"ev":"case","case":id,
         "cfg":{"state":case["state"],"last":case["last"],"cdata":case["cdata"],"rs":case["rs"]},
-        "chunks":case["chunks"], "exact": case["exact"], "bom": case["bom"], "inject": case.get("inject").cloned().unwrap_or(json!([])),
+        "chunks":case["chunks"], "exact": case["exact"], "bom": case["bom"], "profile": case.get("profile").cloned().unwrap_or(json!(false)), "inject": case.get("inject").cloned().unwrap_or(json!([])),
         "toks": merged(&rr.obs),
         "panic": match &rr.panic { Some(m) => json!([cps(m)]), None => json!([]) }});
     if fields.contains("raw") {
@@ -345,6 +358,9 @@ pub fn case_line(case: &Value, id: u64, rr: &RunResult, fields: &str) -> Value {
         }
         o["errs"] = Value::Array(v);
     }
+    if fields.contains("sched") {
+        o["view"] = sched_view(rr);
+    }
     if fields.contains("feeds") {
         o["feeds"] = Value::Array(rr.feeds.clone());
         o["ended"] = json!(rr.ended);
@@ -352,6 +368,48 @@ pub fn case_line(case: &Value, id: u64, rr: &RunResult, fields: &str) -> Value {
         o["eoflast"] = json!(rr.obs.iter().rev().find(|x| !x.is_err).map(|x| x.tok["k"] == "eof").unwrap_or(false));
     }
     o
+}
+
+/// Schedule-independent view of a run (C03/C08): non-character tokens with their line, each
+/// maximal group of character tokens as (text, line of its last token), and parse errors as
+/// (number of non-character tokens before, number of characters delivered before, message).
+pub fn sched_view(rr: &RunResult) -> Value {
+    let mut seq: Vec<Value> = Vec::new();
+    let mut errs: Vec<Value> = Vec::new();
+    let mut nonchar = 0usize;
+    let mut nchars = 0usize;
+    for o in &rr.obs {
+        if o.is_err {
+            errs.push(json!({"n": nonchar, "c": nchars, "m": cps(&o.err)}));
+            continue;
+        }
+        let k = o.tok["k"].as_str().unwrap();
+        if k == "chars" {
+            let a = o.tok["s"].as_array().unwrap();
+            if a.is_empty() {
+                continue;
+            }
+            nchars += a.len();
+            if let Some(last) = seq.last_mut() {
+                if last["k"] == "chars" {
+                    last["s"].as_array_mut().unwrap().extend(a.clone());
+                    last["line"] = json!(o.line);
+                    continue;
+                }
+            }
+            seq.push(json!({"k":"chars","s":a,"line":o.line}));
+        } else {
+            if k == "nul" {
+                nchars += 1;
+            } else {
+                nonchar += 1;
+            }
+            let mut t = o.tok.clone();
+            t["line"] = json!(o.line);
+            seq.push(t);
+        }
+    }
+    json!({"seq": seq, "errs": errs})
 }
 
 pub fn default_case(state: &str, text: &str) -> Value {
@@ -368,12 +426,17 @@ pub fn main(args: &Args) {
             // accept both bare cases and recorded case lines
             let case = if c.get("cfg").is_some() {
                 json!({"state":c["cfg"]["state"],"last":c["cfg"]["last"],"cdata":c["cfg"]["cdata"],"rs":c["cfg"]["rs"],
-                       "chunks":c["chunks"],"exact":c["exact"],"bom":c["bom"],"inject":c["inject"]})
+                       "chunks":c["chunks"],"exact":c["exact"],"bom":c["bom"],"profile":c.get("profile").cloned().unwrap_or(json!(false)),"inject":c["inject"]})
             } else {
                 c.clone()
             };
             let rr = run_tok(&case);
-            out.line(&case_line(&case, id, &rr, &fields));
+            let mut l = case_line(&case, id, &rr, &fields);
+            if c.get("group").is_some() {
+                l["ev"] = c["ev"].clone();
+                l["group"] = c["group"].clone();
+            }
+            out.line(&l);
         }
     } else {
         crate::tokgen::generate(args, &fields, &mut out);
